@@ -12,6 +12,7 @@ package keeper
 //@ ensures [C17] called-exactly-once: k.hooks != nil ==> hookN("BeforeFixedPriceAuctionCreated") == old(hookN("BeforeFixedPriceAuctionCreated")) + 1 && hookArgsAre("BeforeFixedPriceAuctionCreated", auctioneer, startPrice, sellingCoin, payingCoinDenom, vestingSchedules, startTime, endTime)
 //@ ensures [C17] veto-is-returned: k.hooks != nil ==> (result == nil) == HookOK
 //@ ensures [C17] time: k.hooks != nil ==> hookT("BeforeFixedPriceAuctionCreated") > old(Clock) && hookT("BeforeFixedPriceAuctionCreated") <= Clock
+//@ ensures [C17] other-hooks-untouched: hookOthersUnchanged("BeforeFixedPriceAuctionCreated", old(HookN), old(HookT), old(HookArgs))
 //@ ensures Clock >= old(Clock) && (k.hooks == nil ==> HookOK == old(HookOK))
 //@ modifies HookN, HookT
 
@@ -20,6 +21,7 @@ package keeper
 //@ ensures [C17] called-exactly-once: k.hooks != nil ==> hookN("AfterFixedPriceAuctionCreated") == old(hookN("AfterFixedPriceAuctionCreated")) + 1 && hookArgsAre("AfterFixedPriceAuctionCreated", auctionId, auctioneer, startPrice, sellingCoin, payingCoinDenom, vestingSchedules, startTime, endTime)
 //@ ensures [C17] veto-is-returned: k.hooks != nil ==> (result == nil) == HookOK
 //@ ensures [C17] time: k.hooks != nil ==> hookT("AfterFixedPriceAuctionCreated") > old(Clock) && hookT("AfterFixedPriceAuctionCreated") <= Clock
+//@ ensures [C17] other-hooks-untouched: hookOthersUnchanged("AfterFixedPriceAuctionCreated", old(HookN), old(HookT), old(HookArgs))
 //@ ensures Clock >= old(Clock) && (k.hooks == nil ==> HookOK == old(HookOK))
 //@ modifies HookN, HookT
 
@@ -28,6 +30,7 @@ package keeper
 //@ ensures [C17] called-exactly-once: k.hooks != nil ==> hookN("BeforeBatchAuctionCreated") == old(hookN("BeforeBatchAuctionCreated")) + 1 && hookArgsAre("BeforeBatchAuctionCreated", auctioneer, startPrice, minBidPrice, sellingCoin, payingCoinDenom, vestingSchedules, maxExtendedRound, extendedRoundRate, startTime, endTime)
 //@ ensures [C17] veto-is-returned: k.hooks != nil ==> (result == nil) == HookOK
 //@ ensures [C17] time: k.hooks != nil ==> hookT("BeforeBatchAuctionCreated") > old(Clock) && hookT("BeforeBatchAuctionCreated") <= Clock
+//@ ensures [C17] other-hooks-untouched: hookOthersUnchanged("BeforeBatchAuctionCreated", old(HookN), old(HookT), old(HookArgs))
 //@ ensures Clock >= old(Clock) && (k.hooks == nil ==> HookOK == old(HookOK))
 //@ modifies HookN, HookT
 
@@ -36,6 +39,7 @@ package keeper
 //@ ensures [C17] called-exactly-once: k.hooks != nil ==> hookN("AfterBatchAuctionCreated") == old(hookN("AfterBatchAuctionCreated")) + 1 && hookArgsAre("AfterBatchAuctionCreated", auctionId, auctioneer, startPrice, minBidPrice, sellingCoin, payingCoinDenom, vestingSchedules, maxExtendedRound, extendedRoundRate, startTime, endTime)
 //@ ensures [C17] veto-is-returned: k.hooks != nil ==> (result == nil) == HookOK
 //@ ensures [C17] time: k.hooks != nil ==> hookT("AfterBatchAuctionCreated") > old(Clock) && hookT("AfterBatchAuctionCreated") <= Clock
+//@ ensures [C17] other-hooks-untouched: hookOthersUnchanged("AfterBatchAuctionCreated", old(HookN), old(HookT), old(HookArgs))
 //@ ensures Clock >= old(Clock) && (k.hooks == nil ==> HookOK == old(HookOK))
 //@ modifies HookN, HookT
 
@@ -44,6 +48,7 @@ package keeper
 //@ ensures [C17] called-exactly-once: k.hooks != nil ==> hookN("BeforeAuctionCanceled") == old(hookN("BeforeAuctionCanceled")) + 1 && hookArgsAre("BeforeAuctionCanceled", auctionId, auctioneer)
 //@ ensures [C17] veto-is-returned: k.hooks != nil ==> (result == nil) == HookOK
 //@ ensures [C17] time: k.hooks != nil ==> hookT("BeforeAuctionCanceled") > old(Clock) && hookT("BeforeAuctionCanceled") <= Clock
+//@ ensures [C17] other-hooks-untouched: hookOthersUnchanged("BeforeAuctionCanceled", old(HookN), old(HookT), old(HookArgs))
 //@ ensures Clock >= old(Clock) && (k.hooks == nil ==> HookOK == old(HookOK))
 //@ modifies HookN, HookT
 
@@ -52,6 +57,7 @@ package keeper
 //@ ensures [C17] called-exactly-once: k.hooks != nil ==> hookN("BeforeBidPlaced") == old(hookN("BeforeBidPlaced")) + 1 && hookArgsAre("BeforeBidPlaced", auctionId, bidId, bidder, bidType, price, coin)
 //@ ensures [C17] veto-is-returned: k.hooks != nil ==> (result == nil) == HookOK
 //@ ensures [C17] time: k.hooks != nil ==> hookT("BeforeBidPlaced") > old(Clock) && hookT("BeforeBidPlaced") <= Clock
+//@ ensures [C17] other-hooks-untouched: hookOthersUnchanged("BeforeBidPlaced", old(HookN), old(HookT), old(HookArgs))
 //@ ensures Clock >= old(Clock) && (k.hooks == nil ==> HookOK == old(HookOK))
 //@ modifies HookN, HookT
 
@@ -60,6 +66,7 @@ package keeper
 //@ ensures [C17] called-exactly-once: k.hooks != nil ==> hookN("BeforeBidModified") == old(hookN("BeforeBidModified")) + 1 && hookArgsAre("BeforeBidModified", auctionId, bidId, bidder, bidType, price, coin)
 //@ ensures [C17] veto-is-returned: k.hooks != nil ==> (result == nil) == HookOK
 //@ ensures [C17] time: k.hooks != nil ==> hookT("BeforeBidModified") > old(Clock) && hookT("BeforeBidModified") <= Clock
+//@ ensures [C17] other-hooks-untouched: hookOthersUnchanged("BeforeBidModified", old(HookN), old(HookT), old(HookArgs))
 //@ ensures Clock >= old(Clock) && (k.hooks == nil ==> HookOK == old(HookOK))
 //@ modifies HookN, HookT
 
@@ -68,6 +75,7 @@ package keeper
 //@ ensures [C17] called-exactly-once: k.hooks != nil ==> hookN("BeforeAllowedBiddersAdded") == old(hookN("BeforeAllowedBiddersAdded")) + 1 && hookArgsAre("BeforeAllowedBiddersAdded", allowedBidders)
 //@ ensures [C17] veto-is-returned: k.hooks != nil ==> (result == nil) == HookOK
 //@ ensures [C17] time: k.hooks != nil ==> hookT("BeforeAllowedBiddersAdded") > old(Clock) && hookT("BeforeAllowedBiddersAdded") <= Clock
+//@ ensures [C17] other-hooks-untouched: hookOthersUnchanged("BeforeAllowedBiddersAdded", old(HookN), old(HookT), old(HookArgs))
 //@ ensures Clock >= old(Clock) && (k.hooks == nil ==> HookOK == old(HookOK))
 //@ modifies HookN, HookT
 
@@ -76,6 +84,7 @@ package keeper
 //@ ensures [C17] called-exactly-once: k.hooks != nil ==> hookN("BeforeAllowedBidderUpdated") == old(hookN("BeforeAllowedBidderUpdated")) + 1 && hookArgsAre("BeforeAllowedBidderUpdated", auctionId, bidder, maxBidAmount)
 //@ ensures [C17] veto-is-returned: k.hooks != nil ==> (result == nil) == HookOK
 //@ ensures [C17] time: k.hooks != nil ==> hookT("BeforeAllowedBidderUpdated") > old(Clock) && hookT("BeforeAllowedBidderUpdated") <= Clock
+//@ ensures [C17] other-hooks-untouched: hookOthersUnchanged("BeforeAllowedBidderUpdated", old(HookN), old(HookT), old(HookArgs))
 //@ ensures Clock >= old(Clock) && (k.hooks == nil ==> HookOK == old(HookOK))
 //@ modifies HookN, HookT
 
@@ -84,6 +93,7 @@ package keeper
 //@ ensures [C17] called-exactly-once: k.hooks != nil ==> hookN("BeforeSellingCoinsAllocated") == old(hookN("BeforeSellingCoinsAllocated")) + 1 && hookArgsAre("BeforeSellingCoinsAllocated", auctionId, allocationMap, refundMap)
 //@ ensures [C17] veto-is-returned: k.hooks != nil ==> (result == nil) == HookOK
 //@ ensures [C17] time: k.hooks != nil ==> hookT("BeforeSellingCoinsAllocated") > old(Clock) && hookT("BeforeSellingCoinsAllocated") <= Clock
+//@ ensures [C17] other-hooks-untouched: hookOthersUnchanged("BeforeSellingCoinsAllocated", old(HookN), old(HookT), old(HookArgs))
 //@ ensures Clock >= old(Clock) && (k.hooks == nil ==> HookOK == old(HookOK))
 //@ modifies HookN, HookT
 
@@ -147,7 +157,7 @@ package keeper
 //@ func (Keeper).ValidateBatchWorthBid
 //@ requires auction.Kind != 0 && auction.StartPrice > 0 && bid.Coin.Amount >= 0 && bid.Price > 0 && validAddr(bid.Bidder)
 //@ requires (auction.Kind == KindBatch) == (auction.Type == AuctionTypeBatch)
-//@ ensures [C18] batch-auction-only: result == nil ==> auction.Kind == KindBatch
+//@ ensures [C18,C05,C06] batch-auction-only: result == nil ==> auction.Kind == KindBatch
 //@ ensures [C18] paying-denomination: result == nil ==> bid.Coin.Denom == auction.PayingCoinDenom
 //@ ensures [C10,C18] bidder-allow-listed: result == nil ==> AllowedBidder[bid.AuctionId][addrOf(bid.Bidder)].present
 //@ ensures [C05,C18] within-the-cap-alone: result == nil ==> sellOf(bid, auction.PayingCoinDenom) <= AllowedBidder[bid.AuctionId][addrOf(bid.Bidder)].MaxBidAmount
@@ -156,7 +166,7 @@ package keeper
 //@ func (Keeper).ValidateBatchManyBid
 //@ requires auction.Kind != 0 && auction.StartPrice > 0 && bid.Coin.Amount >= 0 && bid.Price > 0 && validAddr(bid.Bidder)
 //@ requires (auction.Kind == KindBatch) == (auction.Type == AuctionTypeBatch)
-//@ ensures [C18] batch-auction-only: result == nil ==> auction.Kind == KindBatch
+//@ ensures [C18,C05,C06] batch-auction-only: result == nil ==> auction.Kind == KindBatch
 //@ ensures [C18] selling-denomination: result == nil ==> bid.Coin.Denom == auction.SellingCoin.Denom
 //@ ensures [C10,C18] bidder-allow-listed: result == nil ==> AllowedBidder[bid.AuctionId][addrOf(bid.Bidder)].present
 //@ ensures [C05,C18] within-the-cap-alone: result == nil ==> sellOf(bid, auction.PayingCoinDenom) <= AllowedBidder[bid.AuctionId][addrOf(bid.Bidder)].MaxBidAmount
